@@ -54,6 +54,7 @@ fn build() -> Vec<Entry> {
         for (ty2, _) in FIXED {
             if ty2 != ty {
                 add("C08", format!("{}->{}.conv", ty, ty2), Kind::Words(1, w));
+                add("C17", format!("{}->{}.spellings", ty, ty2), Kind::Words(1, w));
             }
         }
         add("C09", format!("{}.all", ty), Kind::Words(1, w));
